@@ -30,6 +30,7 @@ pub fn resolve_constants_simple(
             report,
             opts,
             ast_symbol,
+            ctx.symbol_ctx,
             decls,
             defs)?;
 
@@ -47,6 +48,7 @@ fn resolve_constant_simple(
     report: &mut diagn::Report,
     opts: &asm::AssemblyOptions,
     ast_symbol: &asm::AstSymbol,
+    symbol_ctx: &util::SymbolContext,
     decls: &asm::ItemDecls,
     defs: &mut asm::ItemDefs)
     -> Result<asm::ResolutionState, ()>
@@ -80,6 +82,7 @@ fn resolve_constant_simple(
         report,
         decls,
         defs,
+        symbol_ctx,
         &ast_const.expr)?;
 
 
